@@ -4,7 +4,7 @@ import argparse, importlib, json, os, sys, time, traceback
 
 TOOLS = os.path.dirname(os.path.abspath(__file__))
 sys.path.insert(0, TOOLS)
-import pvlib, build as pvbuild, gen_consts  # noqa: E402
+import pvlib, build as pvbuild, gen_consts, gen_utf8  # noqa: E402
 from pvlib import Ctx  # noqa: E402
 
 
@@ -57,6 +57,7 @@ def lean_stage(ctx):
         "Lean 4.33.0 kernel; axioms per theorem listed under coverage.theorems (allowed: propext, Classical.choice, Quot.sound)",
         "Lean compiler/runtime for pvdriver (native execution of the model definitions)",
         "tools/gen_consts.py + harness/consts_main.cc (translator for tables/constants, values printed by the C++ compiler)",
+        "tools/gen_utf8.py (translator from clang's AST of util/utf8.hh to the Lean definitions of IsTrailByte / IsValidCodepoint / DecodeUTF8; its conversion rules and side conditions are in its header)",
         "the correspondence check (tools/props/%s.py, harness/impl_main.cc): bounded, seeded" % prop.lower(),
     ]
     info["modules"] = mods
@@ -87,7 +88,11 @@ def main():
         sys.exit(2)
     ctx.build_info["repo_hash"] = pvbuild.repo_only_hash()
     ctx.build_info["consts_regenerated"] = gen_consts.generate(ctx.bdir)
+    utf8_changed, utf8_err = gen_utf8.generate()
+    ctx.build_info["utf8_regenerated"] = utf8_changed
     broken, driver_ok = lean_stage(ctx)
+    if utf8_err and prop in gen_utf8.DEPENDENT:
+        broken.append(utf8_err)
     if a.replay:
         rp = json.load(open(a.replay))
         mod.replay(ctx, rp)
